@@ -139,7 +139,15 @@ class Rig:
         datas = [(net.sd_bytes([], sid, reboot=flag, unicast=(self.n + i) % 4 != 1), sender, mc) for i, (sender, mc, flag, sid) in enumerate(msgs)]
         if one_datagram:
             sender, mc = msgs[0][0], msgs[0][1]
-            self.h.at(self.t, self.prot.datagram_received, b"".join(d[0] for d in datas), sender, mc)
+            frame = b"".join(d[0] for d in datas)
+            if self.n % 2:
+                # an SD message whose payload does not decode travels in front of the others in the same frame: it is dropped
+                # (it is no received SD message at all), the messages behind it are handled as if it were not there
+                junk = refwire.encode_someip(dict(sid=0xFFFF, mid=0x8100, cid=0, sess=0x7777, iv=1, mt=2, rc=0,
+                                                  payload=bytes.fromhex("c0000000000000100800000010000001010000030000000000000000")))
+                frame = junk + frame
+                self.ctx.count("frames_with_an_undecodable_sd_message_in_front")
+            self.h.at(self.t, self.prot.datagram_received, frame, sender, mc)
         else:
             for data, sender, mc in datas:
                 self.h.at(self.t, self.prot.datagram_received, data, sender, mc)
